@@ -253,14 +253,59 @@ def spell(rng, text, level):
         out.append(l)
     return "\n".join(out)
 
-def fold(rng, text):
+def fold(rng, text, exotic=False):
+    """RFC 5545 line folding of a text whose logical lines are separated by \n: 0-4 folds per logical line (so several
+    CONSECUTIVE continuation lines), folds right after ; , = : and inside values, continuation lines of a single
+    character, \n / \r\n / mixed line breaks, blank and whitespace-only lines between logical lines and at the end.
+    The result unfolds to the same logical lines (rstrip before the test; a continuation extends the last KEPT line).
+    exotic=True (correspondence only: the meaning may change, the model must still agree) adds bare \r breaks, blank lines
+    between a line and its continuation, trailing blanks on physical lines, a first line that begins with a space,
+    tab-started lines and empty first pieces."""
+    style = rng.choice(["\n", "\r\n", "mixed", "mixed"] + (["\r"] if exotic else []))
+    def brk():
+        return rng.choice(["\n", "\r\n"] + (["\r"] if exotic else [])) if style == "mixed" else style
     out = []
-    for l in text.split("\n"):
-        if len(l) > 10 and rng.random() < 0.6:
-            k = rng.randint(2, len(l) - 2)
-            l = l[:k] + "\r\n " + l[k:]
-        out.append(l)
-    return "\r\n".join(out)
+    logical = [l.rstrip("\r") for l in text.split("\n")]
+    for li, l in enumerate(logical):
+        nf = rng.choice([0, 1, 1, 2, 2, 3, 3, 4]) if len(l) > 1 else 0
+        cuts = set()
+        seps = [i + 1 for i, c in enumerate(l) if c in ";,=:" and i + 1 < len(l)]
+        for _ in range(nf):
+            r = rng.random()
+            if seps and r < 0.4:
+                cuts.add(rng.choice(seps))                  # right after a separator
+            elif r < 0.55:
+                cuts.add(len(l) - 1)                        # the last continuation line is one character
+            elif r < 0.7 and len(l) > 2:
+                k = rng.randint(1, len(l) - 2); cuts.update([k, k + 1])    # a one-character continuation in the middle
+            else:
+                cuts.add(rng.randint(1, len(l) - 1))        # anywhere, inside names and values
+        if exotic and rng.random() < 0.05:
+            cuts.add(0)                                     # empty first piece
+        pieces, prev = [], 0
+        for k in sorted(cuts):
+            pieces.append(l[prev:k]); prev = k
+        pieces.append(l[prev:])
+        phys = pieces[0]
+        for pc in pieces[1:]:
+            if exotic and rng.random() < 0.1:
+                phys += rng.choice([" ", "\t", "  "])      # trailing blanks stay inside the unfolded line
+            phys += brk()
+            if exotic and rng.random() < 0.1:
+                phys += rng.choice(["", " ", "\t"]) + brk()  # blank line between a line and its continuation
+            phys += " " + pc
+        out.append(phys)
+        if li + 1 < len(logical):
+            out.append(brk())
+            if rng.random() < 0.15:
+                out.append(rng.choice(["", " ", "  ", "\t"]) + brk())     # blank / whitespace-only line between logical lines
+    res = "".join(out) + rng.choice(["", "", brk(), brk() + brk(), brk() + " " + brk(), brk() + "\t" + brk() + brk()])
+    if exotic:
+        r = rng.random()
+        if r < 0.06: res = " " + res                       # the first line begins with a space: not a continuation
+        elif r < 0.10: res = brk() + " " + res.lstrip()    # … also after a leading blank line
+        elif r < 0.14: res = res.replace(brk() + " ", brk() + "\t", 1)    # a tab does not continue a line
+    return res
 
 MALFORMED = ["FREQ=DAILY;FOO=1", "FREQ=DAILY;INTERVAL=x", "FREQ=NEVER", "FREQ=DAILY;BYDAY=XX", "FREQ=DAILY;BYDAY=", "FREQ=DAILY;BYDAY=1", "FREQ=DAILY;WKST=8",
              "FREQ=DAILY;BYMONTH=1,,2", "FREQ=DAILY;COUNT", "FREQ=DAILY;COUNT=1=2", "FREQ=DAILY;;COUNT=2", "X:FREQ=DAILY", "RRULE:FREQ=DAILY:COUNT=2",
@@ -307,7 +352,11 @@ def path_variants(rng, s):
                 (z(both + "\nEXRULE:FREQ=WEEKLY;COUNT=2;UNTIL=19971224T000000"), optset({})),
                 (z(rline + "\nRRULE:FREQ=YEARLY;COUNT=2"), optset({"dtstart": KW_DTSTART})),
                 (z(both), optset({"compatible": True})),
-                (fold(rng, z(rline)), optset({"unfold": True, "dtstart": KW_DTSTART}))]
+                (fold(rng, z(rline), rng.random() < 0.4), optset({"unfold": True, "dtstart": KW_DTSTART})),
+                (fold(rng, z(both), rng.random() < 0.4), optset({"unfold": True})),
+                (fold(rng, z(both), rng.random() < 0.4), optset({"compatible": True})),
+                (fold(rng, z(both + "\nRDATE:19970910T090000,19970911T090000\nEXDATE:19970903T090000"), rng.random() < 0.4), optset({"unfold": True})),
+                (fold(rng, z(rline[6:]), rng.random() < 0.4), optset({"unfold": True, "dtstart": KW_DTSTART}))]
     return out
 
 # ------------------------------------------------------------------ correspondence
@@ -340,8 +389,10 @@ def correspondence(ctx):
         cases.append((s, {}))
         v = spell(rng, s, 2)
         cases.append((v, {}))
-        if rng.random() < 0.3:
-            cases.append((fold(rng, v), {"unfold": True}))
+        if rng.random() < 0.5:
+            cases.append((fold(rng, v, rng.random() < 0.5), {"unfold": True}))
+        if rng.random() < 0.15:
+            cases.append((fold(rng, s, rng.random() < 0.5), {"compatible": True}))
         if rng.random() < 0.2:
             cases.append((s, {"forceset": True}))
         if rng.random() < 0.2:
@@ -424,7 +475,7 @@ def oracle_sets(ctx):
         body = lines[1:]; rng.shuffle(body)
         txt = "\n".join([lines[0]] + body)
         opts = rng.choice([{}, {"forceset": True}, {"compatible": True}, {"unfold": True}])
-        if "unfold" in opts: txt = fold(rng, txt)
+        if "unfold" in opts or ("compatible" in opts and rng.random() < 0.7): txt = fold(rng, txt)
         ref = R.rruleset()
         ref.rrule(R.rrulestr(r1, dtstart=ds))
         if use_r2: ref.rrule(R.rrulestr(r2, dtstart=ds))
@@ -524,7 +575,9 @@ def run_option_case(ctx, R, freq, ds, kw, scen_name, scen, rng):
                set_of([("rrule", want_rule), ("rrule", rule2(eds))]), R.rruleset),
               ("DTSTART+RRULE+EXRULE", dline + "\nRRULE:" + value + "\nEXRULE:" + second, {},
                set_of([("rrule", want_rule), ("exrule", rule2(eds))]), R.rruleset),
-              ("DTSTART+RRULE+compatible", dline + "\nRRULE:" + value, {"compatible": True},
+              ("DTSTART+RRULE+RDATE+unfold", fold(rng, dline + "\nRRULE:" + value + "\nRDATE:" + ",".join(stamp(d) + dsfx for d in rd)), {"unfold": True},
+               set_of([("rrule", want_rule)] + [("rdate", d.replace(tzinfo=dzone)) for d in rd]), R.rruleset),
+              ("DTSTART+RRULE+compatible", fold(rng, dline + "\nRRULE:" + value), {"compatible": True},
                set_of([("rrule", want_rule), ("rdate", eds)]), R.rruleset)]
     for name, txt, extra, expect, typ in paths:
         o = dict(opts); o.update(extra)
@@ -689,22 +742,7 @@ def oracle(ctx):
             except (ValueError, Timeout):
                 ctx.count("skipped_ctor_or_slow")
 
-def folded_tzid(case):
-    """D-C13-folded-tzid: unfold, and a fold inside the TZID parameter of a property line"""
-    if case.get("kind") != "options" or not ("unfold" in case.get("opts", {}) or "compatible" in case.get("opts", {})):
-        return False
-    phys = case["text"].replace("\r\n", "\n").split("\n")
-    for i, l in enumerate(phys):
-        if not l.startswith(" ") and ";" in l and ":" not in l and i + 1 < len(phys) and phys[i + 1].startswith(" "):
-            logical = l
-            j = i + 1
-            while j < len(phys) and phys[j].startswith(" "):
-                logical += phys[j][1:]; j += 1
-            if ";TZID=" in logical.upper().split(":")[0]:
-                return True
-    return False
-
-KNOWN = {"D-C13-folded-tzid": lambda v: folded_tzid(v["case"])}
+KNOWN = {}
 
 def replay(ctx, payload):
     """re-evaluate the recorded failing case on the current tree (option cases are rebuilt from the recorded rule,
@@ -729,7 +767,7 @@ def replay(ctx, payload):
     scen = option_scenarios(freq, ds, kw)[case["scenario"]]
     for attempt in range(8):          # folding positions are random; the other paths are deterministic
         run_option_case(stub, R, freq, ds, kw, case["scenario"], scen, random.Random(attempt))
-    failing = [x for x in stub.violations if x["case"]["path"] == case["path"] and not folded_tzid(x["case"])]
+    failing = [x for x in stub.violations if x["case"]["path"] == case["path"]]
     for x in failing[:1]:
         print("still failing:", x["what"], "| text:", repr(x["case"]["text"]), "| options:", x["case"]["opts"])
     return not failing
